@@ -188,4 +188,5 @@ def observe(p, idx, keys, cycle_k=0, ctx=None):
     r['getkeys'] = [[k, outcome(lambda: ds[k])] for k in keys]
     # repeatability (C01): iterate again after every other observation
     r['iter2'] = run_stream(lambda: dsi, limit=limit)
+    r['keys2'] = outcome(lambda: list(ds.keys()))      # asking again must not change the answer
     return r, ds
